@@ -217,7 +217,8 @@ fn main() {
     println!("NONE");
 }
 ''' % (nv['enum'], nv['n'], STREAM_SEED, nv['check']))
-        env = dict(os.environ, CARGO_NET_OFFLINE='true', CARGO_TARGET_DIR=os.path.join(tmp, 'target'), RUSTFLAGS='-Awarnings')
+        # optimised, but WITH overflow checks and debug assertions: an arithmetic overflow must panic as it does in a debug build (C01)
+        env = dict(os.environ, CARGO_NET_OFFLINE='true', CARGO_TARGET_DIR=os.path.join(tmp, 'target'), RUSTFLAGS='-Awarnings -C overflow-checks=on -C debug-assertions=on')
         t0 = time.time()
         rc_, out = run_group(['cargo', 'run', '--offline', '-q', '--release', '--bin', 'native_search'], tmp, env, timeout)
         wall = round(time.time() - t0, 1)
@@ -285,7 +286,10 @@ PAIRING = [
     (r'^(C07|C08|C17)\.|^C05\.stream_|^C10\.open_stream|^(safety|proof):elf_stream::', lambda m: 'stream'),
     (r'^C20\.|^proof:elf_bytes::ElfBytes::(find_common_data|symbol_table|dynamic_symbol_table|dynamic|section_header_by_name)', lambda m: 'c20n'),
     (r'^C13\.(get_requirement|get_definition|names)\.', lambda m: 'c13n'),
-    (r'^C1[12]\.(find|new)\.', lambda m: 'hashn'),
+    (r'^C1[12]\.(find|new)\.|^(safety|termination|proof):hash::(SysVHashTable|GnuHashTable)', lambda m: 'hashn'),
+    (r'^(safety|termination|proof):gnu_symver::SymbolVersionTable', lambda m: 'c13n'),
+    (r'^(safety|proof):elf_bytes::(find_shdrs|find_phdrs|ElfBytes::minimal_parse)', lambda m: 'c05n'),
+    (r'^(safety|termination):elf_bytes::ElfBytes::', lambda m: 'c20n'),
     (r'^C05\.(shdrs|phdrs|open)\.', lambda m: 'c05n'),
     (r'^C14\.(note|iter)\.', lambda m: ['c14_a4', 'c14_a8', 'c14_a3']),
     (r'^C03\.(section_range|segment_range|section_data|segment_data)\.', lambda m: 'c03_range'),
